@@ -3,5 +3,5 @@
 ID=$1; shift
 S=/tmp/ts_$ID; rm -rf $S; cp -r /repo $S; rm -rf $S/.git
 (cd $S && patch -p1 -s < /verif/seeded/$ID/patch.diff) || { echo "patch failed"; exit 2; }
-/verif/bin/gvc verify -repo $S -timeout 6000 "$@" 2>&1 | grep -v "failed=0" | cut -c1-220
+GVC_CONTRACTS=mirror ${GVC:-/verif/bin/gvc} verify -repo $S -timeout 6000 "$@" 2>&1 | grep -v "failed=0" | cut -c1-220
 rm -rf $S
